@@ -623,6 +623,34 @@ func (g *gen) tLeaves() {
 		}
 	}
 	c.Class("leaf:faceXYZToUV/faceXYZtoUVW/faceUVToXYZ")
+	// the encode direction (hand model of cellIDFromFaceIJ) and the translated cellIDFromPoint
+	for k := 0; k < 12*n; k++ {
+		f, i, j := k%6, rng.Intn(1<<30), rng.Intn(1<<30)
+		switch rng.Intn(8) {
+		case 0:
+			i, j = 0, 0
+		case 1:
+			i, j = 1<<30-1, 1<<30-1
+		case 2:
+			i = 1<<30 - 1
+		case 3:
+			j = 0
+		case 4:
+			i, j = i&^(1<<uint(rng.Intn(30))-1), j|(1<<uint(rng.Intn(30))-1)
+		}
+		c.Eval(fmt.Sprintf("cellIDFromFaceIJ %d %d %d", f, i, j), true)
+		id := s2.VerifC12CellIDFromFaceIJ(f, i, j)
+		g.check("cellIDFromFaceIJ", fmt.Sprintf("%d %d %d", f, i, j), vkit.App("Z.eqb",
+			vkit.App("s2_cellIDFromFaceIJ", vkit.Z(int64(f)), vkit.Z(int64(i)), vkit.Z(int64(j))), vkit.U(uint64(id))))
+	}
+	for _, p := range pts {
+		if p.X == 0 && p.Y == 0 && p.Z == 0 {
+			continue
+		}
+		c.Eval("cellIDFromPoint "+ptKey(p), true)
+		g.check("cellIDFromPoint", ptKey(p), vkit.App("Z.eqb", vkit.App("s2_cellIDFromPoint", ptT(p)), vkit.U(uint64(s2.VerifC12CellIDFromPoint(p)))))
+	}
+	c.Class("leaf:cellIDFromFaceIJ/cellIDFromPoint")
 }
 
 // ---------------------------------------------------------------- [T] 3: cell x point
